@@ -11,6 +11,7 @@ import (
 	"github.com/taskctl/taskctl/pkg/scheduler"
 	"github.com/taskctl/taskctl/pkg/task"
 
+	"verif/harness/drv"
 	"verif/harness/hook"
 )
 
@@ -181,6 +182,17 @@ func build(g *Gr, out map[string]*scheduler.Stage) (*scheduler.ExecutionGraph, e
 		} else {
 			tk := task.FromCommands("true")
 			tk.Name = s.ID
+			tk.Interactive = s.Attr&1 != 0
+			if s.Attr&2 != 0 {
+				d := time.Hour
+				tk.Timeout = &d
+			}
+			if s.Attr&4 != 0 {
+				tk.ExportAs = "OUT_" + s.ID
+			}
+			if s.Attr&8 != 0 {
+				tk.Dir = "/tmp"
+			}
 			st.Task = tk
 			st.AllowFailure = s.Outcome == FailAllow
 		}
@@ -343,9 +355,13 @@ func execute(g *Gr, ch Chooser, p Params) (obs Obs, vs []Violation) {
 		}
 	}
 
+	throttled := false
 	for !returned {
 		// 1. reach quiescence
 		deadline := time.Now().Add(p.Bound)
+		if throttled {
+			deadline = time.Now().Add(20 * p.Settle)
+		}
 		var obsNames []string
 		for {
 			select {
@@ -391,13 +407,27 @@ func execute(g *Gr, ch Chooser, p Params) (obs Obs, vs []Violation) {
 				continue
 			}
 			if time.Now().After(deadline) {
+				if !loose && len(expected) > 0 && len(obsNames) > 0 && drv.Prop() != "C04" && drv.Prop() != "" {
+					// something holds eligible stages back while others run. That is C04's business; for the other
+					// properties the run goes on with what is in flight (and waits only briefly from now on)
+					if !throttled {
+						fail("C04", "eligible stages %v were not all started within %v: in flight %v", sortedKeys(expected), p.Bound, obsNames)
+					}
+					throttled = true
+					break
+				}
 				obs.Liveness = true
 				if loose {
 					fail("C03", "the run neither returned nor started anything for %v", p.Bound)
 				} else if len(expected) == 0 {
 					fail("C03", "every stage is resolved in the model but Schedule did not return within %v", p.Bound)
 				} else {
-					fail("C04", "eligible stages %v were not all started within %v: in flight %v", sortedKeys(expected), p.Bound, obsNames)
+					tags := "C04"
+					if len(obsNames) == 0 {
+						// nothing is in flight and nothing gets started: the run cannot end any more either
+						tags = "C03 C04"
+					}
+					fail(tags, "eligible stages %v were not all started within %v: in flight %v", sortedKeys(expected), p.Bound, obsNames)
 				}
 				abort()
 				return
